@@ -518,8 +518,14 @@ fn gen_single(t: &mut Tape, b: &Built, f: &mut Features) -> String {
             match t.below(4) {
                 0 => format!("v1-{}-g{}", t.below(5), &id[..len]),
                 1 => format!("anything-g{}", &id[..len]),
-                2 => format!("v2.0-1-g{}-dirty", &id[..len]),
-                _ => format!("{}-dirty", &id[..len]),
+                2 => {
+                    f.add("describe-with-suffix");
+                    format!("v2.0-1-g{}-dirty", &id[..len])
+                }
+                _ => {
+                    f.add("describe-with-suffix");
+                    format!("{}-dirty", &id[..len])
+                }
             }
         }
         4 => {
@@ -652,10 +658,15 @@ fn gen_spec(t: &mut Tape, b: &Built) -> (String, Features) {
         _ => {
             f.add("minus-parent");
             let n = t.below(4);
+            let single = gen_single(t, b, &mut f);
+            // anything but a plain name or hex id in front of `^-`: see known class of the same name
+            if !(b.names.contains(&single) || single.bytes().all(|c| c.is_ascii_hexdigit())) {
+                f.add("minus-parent-after-navigation");
+            }
             if n == 0 {
-                format!("{}^-", gen_single(t, b, &mut f))
+                format!("{single}^-")
             } else {
-                format!("{}^-{n}", gen_single(t, b, &mut f))
+                format!("{single}^-{n}")
             }
         }
     };
@@ -816,6 +827,15 @@ fn is_unimplemented(gix: &Outcome) -> bool {
     matches!(gix, Outcome::Fail(m) if m.contains("This feature will be implemented once"))
 }
 
+/// one-byte code (1..=250) of a signature, see the strict mode of `run_world`
+fn focus_code(sig: &str) -> u8 {
+    let mut h: u32 = 2166136261;
+    for b in sig.bytes() {
+        h = (h ^ b as u32).wrapping_mul(16777619);
+    }
+    (h % 250) as u8 + 1
+}
+
 fn load_known() -> HashSet<String> {
     let mut set = HashSet::new();
     if let Ok(txt) = std::fs::read_to_string("/verif/known_findings.json") {
@@ -836,6 +856,8 @@ fn load_known() -> HashSet<String> {
 fn signature(git: &Outcome, gix: &Outcome, f: &Features, tag_ids: &BTreeMap<String, String>) -> String {
     const PRIORITY: &[&str] = &[
         "colon-form-before-range-syntax",
+        "minus-parent-after-navigation",
+        "describe-with-suffix",
         "tilde-zero",
         "index-stage-3",
         "prior-checkout",
@@ -873,8 +895,12 @@ fn signature(git: &Outcome, gix: &Outcome, f: &Features, tag_ids: &BTreeMap<Stri
                 && m.split(|c: char| !c.is_ascii_hexdigit())
                     .filter(|w| w.len() >= 7)
                     .any(|w| tag_ids.values().any(|id| id.starts_with(w)));
-            if about_a_tag && !matches!(feature, "colon-form-before-range-syntax" | "tilde-zero" | "index-stage-3") {
+            let about_a_tag = about_a_tag || m.contains("Expected object of kind commit but got tag");
+            if about_a_tag && !matches!(feature, "colon-form-before-range-syntax" | "tilde-zero" | "index-stage-3" | "describe-with-suffix") {
                 return "navigation-from-annotated-tag-not-peeled".to_string();
+            }
+            if m.contains("does not have a reference log") {
+                return "name-at-n-resolves-ref-before-looking-for-its-log".to_string();
             }
             if m.contains("Unborn heads do not have a reflog yet") {
                 return "at-reflog-on-detached-head-unsupported".to_string();
@@ -883,22 +909,19 @@ fn signature(git: &Outcome, gix: &Outcome, f: &Features, tag_ids: &BTreeMap<Stri
         }
         _ => "different-result",
     };
-    if feature == "colon-form-before-range-syntax" {
+    if matches!(
+        feature,
+        "colon-form-before-range-syntax" | "tilde-zero" | "describe-with-suffix" | "minus-parent-after-navigation"
+    ) {
         // one class whatever the direction
         return feature.to_string();
     }
     format!("{dir}:{feature}")
 }
 
-pub fn main() {
-    let mut ck = Check::new("C48", "exploration");
-    ck.rule("One case = a generated repository (2..12 commits incl. merges/several roots, distinct commit times in random order, multi-line messages, nested trees, 0..900 filler blobs for colliding hex prefixes, branches incl. hex-looking and tag-shadowing names, lightweight/annotated/nested tags, tree and blob tags, upstream configuration, hand-written reflogs incl. checkout lines and gaps, index with conflict stages, attached or detached HEAD) plus 80 specs from the grammar: names in all short forms, full/abbreviated/ambiguous/too-short hex, describe names, @, name@{n}, @{-n}, @{u}/@{upstream}/@{push}, :/regex, :path, :n:path, then up to 4 of ~n ^n ^0 ^{type} ^{} ^{/regex} :path; ranges A..B A...B ..B A.. ^A A^@ A^! A^-n. Non-trivial: the case contains specs with >= 2 navigation/peel operators or range/reflog forms (counted per label). Distinct by hash of (world, specs).");
-    ck.assume(&format!("oracle: `{} rev-parse <spec> --` (exit status and printed ids); for A...B only the two tips are compared (gitoxide does not compute the merge bases in rev_parse)", Git::version()));
-    ck.assume("gitoxide is opened with isolated options; forms gitoxide reports as planned/unimplemented (reflog lookups by date) are not generated; commit times are distinct so that the youngest-first regex search order is well-defined; regexes are restricted to syntax with the same meaning in POSIX BRE (git) and the regex crate, except where labelled regex-meta/regex-anchor");
-
-    let known = load_known();
-
-    ck.sub("world", SubCfg::new(60, 1_500).max_len(2400).max_shrink(8), |t, c| {
+/// One world and its specs. `strict`: a disagreement in a known deviation class fails the case with the class
+/// signature (used for the pinned replays); otherwise such specs are counted and the search goes on behind them.
+fn run_world(t: &mut Tape, c: &mut Case, strict: bool, known: &HashSet<String>) {
         let wspec = gen_world(t);
         let built = infra!(c, build(&wspec), "build world");
         let repo = infra!(
@@ -913,6 +936,9 @@ pub fn main() {
         }
         c.key(&(&wspec, specs.iter().map(|(s, _)| s.clone()).collect::<Vec<_>>()));
         let mut first_known: Option<(String, String)> = None;
+        let mut all_known: Vec<(String, String)> = Vec::new();
+        let hunt = std::env::var("VERIF_PIN_HUNT").ok();
+        let mut hunted: Option<(String, String)> = None;
         let mut sample = Vec::new();
         let mut seen = HashSet::new();
         specs.retain(|(s, _)| seen.insert(s.clone()));
@@ -997,8 +1023,14 @@ pub fn main() {
                 );
                 if known.contains(&sig) {
                     c.label("spec-in-known-deviation-class");
+                    if hunt.as_deref() == Some(sig.as_str()) && hunted.is_none() {
+                        hunted = Some((sig.clone(), msg.clone()));
+                    }
                     if first_known.is_none() {
-                        first_known = Some((sig, msg));
+                        first_known = Some((sig.clone(), msg.clone()));
+                    }
+                    if !all_known.iter().any(|(k, _)| *k == sig) {
+                        all_known.push((sig, msg));
                     }
                 } else {
                     c.fail_sig(&sig, msg);
@@ -1007,10 +1039,36 @@ pub fn main() {
             }
         }
         c.sample_with(|| format!("{wspec:?}\n  {}", sample.join("\n  ")));
-        if let Some((sig, msg)) = first_known {
-            c.fail_sig(&sig, msg);
+        // strict (pinned) mode: report a known class. Which one, when the world shows several, is selected by the
+        // byte that follows the case on the tape (0 / no match: the first one met), so that every pinned case can name
+        // its own class; the message says where that byte sits.
+        if strict {
+            let focus = t.u8();
+            let at = t.consumed().len();
+            let chosen = all_known.iter().find(|(sig, _)| focus_code(sig) == focus).or(all_known.first()).cloned();
+            if let Some((sig, msg)) = chosen {
+                c.fail_sig(&sig, format!("{msg} [focus byte {focus} at tape offset {}]", at.saturating_sub(1)));
+            }
         }
-    });
+        let _ = first_known;
+        // author's aid for (re)creating pinned cases: VERIF_PIN_HUNT=<signature> reports that known class as `hunt:<sig>`
+        if let (true, Some((sig, msg))) = (strict, hunted) {
+            c.verdict = Verdict::Pass;
+            c.fail_sig(&format!("hunt:{sig}"), msg);
+        }
+    }
+
+pub fn main() {
+    let mut ck = Check::new("C48", "exploration");
+    ck.rule("One case = a generated repository (2..12 commits incl. merges/several roots, distinct commit times in random order, multi-line messages, nested trees, 0..900 filler blobs for colliding hex prefixes, branches incl. hex-looking and tag-shadowing names, lightweight/annotated/nested tags, tree and blob tags, upstream configuration, hand-written reflogs incl. checkout lines and gaps, index with conflict stages, attached or detached HEAD) plus 80 specs from the grammar: names in all short forms, full/abbreviated/ambiguous/too-short hex, describe names, @, name@{n}, @{-n}, @{u}/@{upstream}/@{push}, :/regex, :path, :n:path, then up to 4 of ~n ^n ^0 ^{type} ^{} ^{/regex} :path; ranges A..B A...B ..B A.. ^A A^@ A^! A^-n. Non-trivial: the case contains specs with >= 2 navigation/peel operators or range/reflog forms (counted per label). Distinct by hash of (world, specs).");
+    ck.assume(&format!("oracle: `{} rev-parse <spec> --` (exit status and printed ids); for A...B only the two tips are compared (gitoxide does not compute the merge bases in rev_parse)", Git::version()));
+    ck.assume("gitoxide is opened with isolated options; forms gitoxide reports as planned/unimplemented (reflog lookups by date) are not generated; commit times are distinct so that the youngest-first regex search order is well-defined; regexes are restricted to syntax with the same meaning in POSIX BRE (git) and the regex crate, except where labelled regex-meta/regex-anchor");
+
+    let known = load_known();
+
+    ck.sub("world", SubCfg::new(60, 1_500).max_len(2400).max_shrink(8), |t, c| run_world(t, c, false, &known));
+    // replays of the pinned known findings (and one more random world) with known classes reported
+    ck.sub("pinned", SubCfg::new(1, 4).max_len(2400).max_shrink(4), |t, c| run_world(t, c, true, &known));
 
     ck.finish();
 }
